@@ -12,7 +12,7 @@ from ..common import codes, Violation
 ID = "C20"
 LEVEL = "exploration"
 RULE = ("Cases: 'tmp': TmpPool(fresh scratch dir, multi_proc) with a body of create / remove(j-th live path) / external os.remove then "
-        "pool.remove / flush / len / index operations; for every generated body the with-block is executed once without fault and once "
+        "pool.remove / external os.remove without telling the pool / flush / len / index operations; for every generated body the with-block is executed once without fault and once "
         "for EVERY position p at which the body raises (all fault positions enumerated); multi-process pools additionally fork 1..3 "
         "children (multiprocessing fork context) that each create 1..3 files inside the context; 'conc': the parent and 1..2 forked children remove (disjoint shares of) and create files of one multi_proc pool at the same time, with single os.remove/create turns granted by a generated schedule. 'files': FilePool over 0..5 distinct "
         "paths in mode r/rb/r+/w/wb/a/w+ with reads/writes through the handles and the same fault enumeration, and pools in which one path cannot be opened (entering must raise and leave no descriptor of the earlier paths open). Oracle: returned paths "
@@ -32,7 +32,7 @@ class Boom(Exception):
     pass
 
 
-TMP_OPS = ["create", "create", "remove", "ext_remove", "flush", "len", "index", "create", "remove"]
+TMP_OPS = ["create", "create", "remove", "ext_remove", "flush", "len", "index", "create", "remove", "ext_delete_only", "create"]
 
 
 def dec_tmp(c):
@@ -57,6 +57,7 @@ def run_tmp_once(case, ctx, fault_at, sc, run_no):
     pool = F.TmpPool(d, multi_proc=multi)
     first_manager = pool._manager if multi and hasattr(pool, "_manager") else None
     live = []
+    gone = set()        # live paths deleted externally without telling the pool
     everything = []
     created_before_fault = 0
     flush_then_create = False
@@ -73,8 +74,8 @@ def run_tmp_once(case, ctx, fault_at, sc, run_no):
         if len(pool) != len(live):
             fail("%s/len" % after, "len %d vs %d" % (len(pool), len(live)))
         on_disk = listdir(d)
-        if on_disk != sorted(live):
-            fail("%s/disk-differs" % after, "on disk %d files, expected exactly the %d live paths" % (len(on_disk), len(live)))
+        if on_disk != sorted(x for x in live if x not in gone):
+            fail("%s/disk-differs" % after, "on disk %d files, expected exactly the %d live paths" % (len(on_disk), len(live) - len(gone)))
             return False
         return True
 
@@ -97,16 +98,29 @@ def run_tmp_once(case, ctx, fault_at, sc, run_no):
                     flush_then_create = True
             elif k == "remove" and live:
                 p = live.pop(o[1] % len(live))
+                gone.discard(p)
                 pool.remove(p)
                 if os.path.exists(p):
                     fail("remove/still-exists", "removed path still exists")
             elif k == "ext_remove" and live:
                 p = live.pop(o[1] % len(live))
-                os.remove(p)
+                if p in gone:
+                    gone.discard(p)
+                else:
+                    os.remove(p)
                 pool.remove(p)
+            elif k == "ext_delete_only" and live:
+                # somebody deletes a pool file behind the pool's back: the pool still lists it; flush()/exit must cope
+                p = live[o[1] % len(live)]
+                if p not in gone:
+                    os.remove(p)
+                    gone.add(p)
+                    ctx.label("externally-deleted-file-in-pool")
+                    ctx.nontrivial = True
             elif k == "flush":
                 pool.flush()
                 live.clear()
+                gone.clear()
                 flushed = True
                 if os.listdir(d):
                     fail("flush/files-left", "%d files left after flush()" % len(os.listdir(d)))
